@@ -1066,6 +1066,17 @@ func c16judge(c *Ctx, jobs []c16job) {
 					cw = run.classW[s]
 				}
 				ok = false
+				// which part of the step differs: the operation's own effect/answer, or one of the
+				// whole-matrix queries that are evaluated after every step
+				gp, mp := strings.Split(g, ";"), strings.Split(m, ";")
+				if len(gp) == 4 && len(mp) == 4 && gp[0] == mp[0] {
+					for qi, qn := range []string{"", "getEnclosingRectangle", "getTopLeftOnBit", "getBottomRightOnBit"} {
+						if qi > 0 && gp[qi] != mp[qi] {
+							opn = qn + "-after-" + opn
+							break
+						}
+					}
+				}
 				key = opn + "-" + c16class(j.kind, cw)
 				detail = fmt.Sprintf("step %d (%s): go=%s spec=%s", s, j.toks[c16min(s, len(j.toks)-1)], g, m)
 				upto = s + 1
@@ -1074,8 +1085,11 @@ func c16judge(c *Ctx, jobs []c16job) {
 		}
 		if ok && run.view != "" {
 			ok = false
-			opn := strings.SplitN(j.toks[run.viewAt], ",", 2)[0]
-			key = "view-" + run.view + "-after-" + opn
+			cw := 1
+			if run.viewAt < len(run.classW) {
+				cw = run.classW[run.viewAt]
+			}
+			key = "view-" + run.view + "-" + c16class(j.kind, cw)
 			detail = fmt.Sprintf("after step %d (%s) the view %s disagrees with the words", run.viewAt, j.toks[run.viewAt], run.view)
 			upto = run.viewAt + 1
 		}
@@ -1152,8 +1166,8 @@ func runC16(c *Ctx) {
 		heights = []int{1, 2, 3, 4}
 		sizes = c16QuickSizes
 	}
-	perMat := c.Pick(24, 150)
-	perArr := c.Pick(150, 400)
+	perMat := c.Pick(48, 150)
+	perArr := c.Pick(300, 400)
 	nBad := c.Pick(300, 6000)
 	type unit struct {
 		kind    byte
